@@ -132,6 +132,14 @@ func RunProperty(spec *PropertySpec, opt CheckOptions) int {
 		return 2
 	}
 	stats := &SolverStats{}
+	var cross *crossSampler
+	if !opt.NoReplay {
+		// quick: every 97th query, at most 150; thorough: every 41st, at most 1500
+		cross = &crossSampler{every: 97, max: 150}
+		if tier == 1 {
+			cross = &crossSampler{every: 41, max: 1500}
+		}
+	}
 	var runs []*HarnessRun
 	var reports []*HarnessReport
 	var problems []string
@@ -145,7 +153,7 @@ func RunProperty(spec *PropertySpec, opt CheckOptions) int {
 			h.MaxPaths = opt.MaxPaths
 		}
 		hs := time.Now()
-		h.Explore(opt.Workers, stats, nil)
+		h.ExploreWith(opt.Workers, stats, nil, cross)
 		rep := &HarnessReport{Name: n, Paths: h.Paths, Branches: h.Branches, Ends: h.Ends, WallS: time.Since(hs).Seconds(), Notes: map[string]string{}}
 		for _, o := range h.Obligs {
 			rep.Obligs += o.Checked
@@ -263,7 +271,21 @@ func RunProperty(spec *PropertySpec, opt CheckOptions) int {
 			exit = 2
 		}
 	}
+	var cr *crossResult
+	if cross != nil && exit != 1 {
+		cr = cross.run()
+		for _, d := range cr.Disagreements {
+			fmt.Printf("INCONCLUSIVE property=%s: solver disagreement: %s\n", spec.ID, d)
+			problems = append(problems, "solver disagreement: "+d)
+		}
+		if len(cr.Disagreements) > 0 && exit == 0 {
+			exit = 2
+		}
+	}
 	ev := writeEvidence(spec, opt, e, runs, reports, time.Since(t0), problems, stats, knownRepro, loadS)
+	if cr != nil {
+		ev.doc["coverage"].(map[string]interface{})["solver_cross_check"] = cr
+	}
 	if val != nil {
 		ev.doc["coverage"].(map[string]interface{})["translator_validation"] = val
 		replayed += val.Agreed
